@@ -839,4 +839,220 @@ theorem renderTop_noerr (d : Deco) (e : Spec.Expr) : ∀ t ∈ renderTop d e, t 
 
 theorem table_prefix_closed : ∀ q ∈ operators, q.1.length ≤ 3 ∧ ∀ n ∈ [1, 2, 3], q.1.take n ∈ operators.map (·.1) := by decide
 
+/-! ## `$name` in the text of an arithmetic expansion (shell leg) -/
+
+theorem termChar_not_open (c : Char) (h : isTermChar c = true) : c ≠ '(' ∧ c ≠ '{' := by
+  constructor <;> (intro hc; subst hc; revert h; decide)
+
+theorem substText_dollar (f : Nat) (st : Store) (status : Nat) (c : Char) (cs after v : List Char)
+    (hname : ∀ ch ∈ c :: cs, isTermChar ch = true)
+    (hafter : ∀ ch, after.head? = some ch → isTermChar ch = false)
+    (hv : textOf st (c :: cs) = some v) :
+    substText (f + 1) st status ('$' :: ((c :: cs) ++ after)) =
+      (substText f st status after).map fun (t, st2, s2) => (v ++ t, st2, s2) := by
+  obtain ⟨h1, h2⟩ := termChar_not_open c (hname c (by simp))
+  obtain ⟨htw, hdw⟩ := takeWhile_term_general (c :: cs) after hname hafter
+  simp only [List.cons_append] at htw hdw ⊢
+  rw [substText]
+  · simp only [htw, hdw, List.isEmpty_cons, Bool.false_eq_true, if_false, hv]
+  · intro rest h; simp only [List.cons.injEq] at h; exact h1 h.1
+  · intro rest h; simp only [List.cons.injEq] at h; exact h1 h.1
+  · intro rest h; simp only [List.cons.injEq] at h; exact h2 h.1
+/-! ## the admissible causes (`Spec.fails`) against the Spec's value -/
+
+open Spec in
+theorem why_none_iff_arith (op : BinaryOperator) (a b : Int) :
+    why (arithOf op) a b = none ↔ (arith op a b).isSome := by
+  rw [why_none_iff]
+  unfold arith definedOp exactOp
+  by_cases h : definedA (arithOf op) a b ∧ InRange (exactA (arithOf op) a b) <;> simp [h]
+
+theorem isSome_map {α β : Type} (o : Option α) (f : α → β) : (o.map f).isSome = o.isSome := by
+  cases o <;> rfl
+
+open Spec in
+theorem fails_nil_iff (e : Expr) : ∀ env, litsInRange e → (fails e env = [] ↔ (evalExact e env).isSome) := by
+  induction e with
+  | num v =>
+    intro env hl
+    have : Spec.InRange v := (inRange_iff v).mp hl
+    simp [fails, evalExact, represent, this]
+  | var x =>
+    intro env _
+    simp only [fails, evalExact, isSome_map]
+    cases readVar env x <;> simp
+  | pre op e ih =>
+    intro env hl
+    have ih' := ih env hl
+    cases op with
+    | Increment =>
+      cases e <;> simp only [fails, evalExact, reduceCtorEq, Option.isSome_none, List.cons_ne_nil, iff_false, not_false_eq_true, Bool.false_eq_true] <;> try trivial
+      rename_i x
+      cases readVar env x with
+      | none => simp
+      | some v => simp only [Option.bind_some, isSome_map, if_true]; cases represent (v + 1) <;> simp
+    | Decrement =>
+      cases e <;> simp only [fails, evalExact, reduceCtorEq, Option.isSome_none, List.cons_ne_nil, iff_false, not_false_eq_true, Bool.false_eq_true] <;> try trivial
+      rename_i x
+      cases readVar env x with
+      | none => simp
+      | some v => simp only [Option.bind_some, isSome_map, reduceCtorEq, if_false]; cases represent (v - 1) <;> simp
+    | NumericCoercion => simpa [fails, evalExact] using ih'
+    | LogicalNegation => simpa [fails, evalExact, isSome_map] using ih'
+    | BitwiseNegation => simpa [fails, evalExact, isSome_map] using ih'
+    | NumericNegation =>
+      simp only [fails, evalExact]
+      cases hf : fails e env with
+      | nil =>
+        have hs := ih'.mp hf
+        cases hx : evalExact e env with
+        | none => rw [hx] at hs; simp at hs
+        | some p =>
+          obtain ⟨v, env1⟩ := p
+          simp only [Option.bind_some, isSome_map]
+          cases represent (-v) <;> simp
+      | cons a t =>
+        have hn : evalExact e env = none := by
+          cases hx : evalExact e env with
+          | none => rfl
+          | some p => have := ih'.mpr (by rw [hx]; rfl); rw [hf] at this; simp at this
+        simp [hn]
+  | post op e ih =>
+    intro env hl
+    cases e <;> simp only [fails, evalExact, reduceCtorEq, Option.isSome_none, List.cons_ne_nil, iff_false, not_false_eq_true, Bool.false_eq_true] <;> try trivial
+    rename_i x
+    cases readVar env x with
+    | none => simp
+    | some v =>
+      simp only [Option.bind_some, isSome_map]
+      cases op
+      · simp only [↓reduceIte]; cases represent (v + 1) <;> simp
+      · simp only [reduceCtorEq, ↓reduceIte]; cases represent (v - 1) <;> simp
+  | cond c t e ihc iht ihe =>
+    intro env hl
+    obtain ⟨hlc, hlt, hle⟩ := hl
+    simp only [fails, evalExact]
+    cases hf : fails c env with
+    | nil =>
+      have hs := (ihc env hlc).mp hf
+      cases hx : evalExact c env with
+      | none => rw [hx] at hs; simp at hs
+      | some p =>
+        obtain ⟨a, env1⟩ := p
+        simp only [Option.bind_some]
+        by_cases ha : a ≠ 0
+        · simp only [if_pos ha]; exact iht env1 hlt
+        · simp only [if_neg ha]; exact ihe env1 hle
+    | cons a t' =>
+      have hn : evalExact c env = none := by
+        cases hx : evalExact c env with
+        | none => rfl
+        | some p => have := (ihc env hlc).mpr (by rw [hx]; rfl); rw [hf] at this; simp at this
+      simp [hn]
+  | bin op l r ihl ihr =>
+    intro env hl
+    obtain ⟨hll, hlr⟩ := hl
+    have none_of_cons : ∀ (x : Expr) (env : Env) (a : Fail) (t : List Fail), litsInRange x →
+        (fails x env = [] ↔ (evalExact x env).isSome) → fails x env = a :: t → evalExact x env = none := by
+      intro x env a t _ hiff hf
+      cases hx : evalExact x env with
+      | none => rfl
+      | some p => have := hiff.mpr (by rw [hx]; rfl); rw [hf] at this; simp at this
+    by_cases h1 : op = .LogicalOr
+    · subst h1
+      simp only [fails, evalExact, true_or, if_true, true_and, reduceCtorEq, false_and, or_false]
+      cases hf : fails l env with
+      | nil =>
+        have hs := (ihl env hll).mp hf
+        cases hx : evalExact l env with
+        | none => rw [hx] at hs; simp at hs
+        | some p =>
+          obtain ⟨a, env1⟩ := p
+          simp only [Option.bind_some]
+          by_cases ha : a ≠ 0
+          · simp [if_pos ha]
+          · simp only [if_neg ha, isSome_map]; exact ihr env1 hlr
+      | cons a t => simp [none_of_cons l env a t hll (ihl env hll) hf]
+    · by_cases h2 : op = .LogicalAnd
+      · subst h2
+        simp only [fails, evalExact, or_true, if_true, reduceCtorEq, if_false, false_and, false_or, true_and]
+        cases hf : fails l env with
+        | nil =>
+          have hs := (ihl env hll).mp hf
+          cases hx : evalExact l env with
+          | none => rw [hx] at hs; simp at hs
+          | some p =>
+            obtain ⟨a, env1⟩ := p
+            simp only [Option.bind_some]
+            by_cases ha : a = 0
+            · simp [if_pos ha]
+            · simp only [if_neg ha, isSome_map]; exact ihr env1 hlr
+        | cons a t => simp [none_of_cons l env a t hll (ihl env hll) hf]
+      · have hno : ¬ (op = .LogicalOr ∨ op = .LogicalAnd) := by simp [h1, h2]
+        simp only [fails, evalExact, hno, h1, h2, if_false]
+        cases hk : kindOf op with
+        | plain =>
+          simp only
+          cases hx : evalExact l env with
+          | none =>
+            have hfl : fails l env ≠ [] := fun h => by have := (ihl env hll).mp h; rw [hx] at this; simp at this
+            cases hf : fails l env with
+            | nil => exact absurd hf hfl
+            | cons a t => simp
+          | some p =>
+            obtain ⟨a, env1⟩ := p
+            have hfl : fails l env = [] := (ihl env hll).mpr (by rw [hx]; rfl)
+            simp only [hfl, List.isEmpty_nil, true_and, List.nil_append, Option.bind_some]
+            cases hy : evalExact r env1 with
+            | none =>
+              have hfr : fails r env1 ≠ [] := fun h => by have := (ihr env1 hlr).mp h; rw [hy] at this; simp at this
+              cases hf : fails r env1 with
+              | nil => exact absurd hf hfr
+              | cons a' t => simp
+            | some q =>
+              obtain ⟨b, env2⟩ := q
+              have hfr : fails r env1 = [] := (ihr env1 hlr).mpr (by rw [hy]; rfl)
+              simp only [hfr, List.isEmpty_nil, if_true, Option.bind_some, isSome_map]
+              have hw := why_none_iff_arith op a b
+              cases hwq : why (arithOf op) a b with
+              | none => simp [hw.mp hwq]
+              | some qq =>
+                have : (arith op a b).isSome = false := by
+                  cases har : arith op a b with
+                  | none => rfl
+                  | some v => have := hw.mpr (by rw [har]; rfl); rw [hwq] at this; simp at this
+                simp [this]
+        | assign =>
+          cases l with
+          | var x => simp only [isSome_map]; exact ihr env hlr
+          | _ => simp
+        | compound =>
+          cases l with
+          | var x =>
+            simp only
+            cases hrd : readVar env x with
+            | none => simp
+            | some a =>
+              simp only [Option.isNone_some, Bool.false_eq_true, if_false, List.isEmpty_nil, true_and, List.nil_append,
+                Option.bind_some]
+              cases hy : evalExact r env with
+              | none =>
+                have hfr : fails r env ≠ [] := fun h => by have := (ihr env hlr).mp h; rw [hy] at this; simp at this
+                cases hf : fails r env with
+                | nil => exact absurd hf hfr
+                | cons a' t => simp
+              | some q =>
+                obtain ⟨b, env2⟩ := q
+                have hfr : fails r env = [] := (ihr env hlr).mpr (by rw [hy]; rfl)
+                simp only [hfr, List.isEmpty_nil, if_true, Option.bind_some, isSome_map]
+                have hw := why_none_iff_arith op a b
+                cases hwq : why (arithOf op) a b with
+                | none => simp [hw.mp hwq]
+                | some qq =>
+                  have : (arith op a b).isSome = false := by
+                    cases har : arith op a b with
+                    | none => rfl
+                    | some v => have := hw.mpr (by rw [har]; rfl); rw [hwq] at this; simp at this
+                  simp [this]
+          | _ => simp
 end YashModel.Arith
